@@ -25,6 +25,7 @@ EXTENDS Integers, Sequences, FiniteSets, TLC, Json, Cube
 CONSTANTS
     RotCases,       \* set of [dims, R]
     PlaceCases,     \* set of [cdims, tmpl, poses]
+    PlaceListCases, \* set of [cdims, tmpls, poses]: one template per pose (input_object given as a list)
     WindowCases,    \* set of [vdims, centre, shape]
     SymCases,       \* set of [dims, n]
     EmitMode        \* "none" | "tr"
@@ -69,6 +70,12 @@ Stamp(pose, tmpl) == { Add([i \in 1..3 |-> pose.pos[i] - 1], PoseShift(pose.R, o
 
 \* poses are stamped in list order: the last pose covering a voxel wins
 Stamps(tmpl, poses) == [i \in DOMAIN poses |-> Stamp(poses[i], tmpl)]
+\* one template per pose
+StampsL(tmpls, poses) == [i \in DOMAIN poses |-> Stamp(poses[i], tmpls[i])]
+PlacedFrom(cdims, poses, st) ==
+    LET Last(x) == CHOOSE i \in DOMAIN poses : x \in st[i] /\ \A j \in DOMAIN poses : j > i => x \notin st[j]
+    IN  { <<x, poses[Last(x)].colour>> : x \in { y \in UNION { st[i] : i \in DOMAIN poses } : InBox(y, cdims) } }
+
 Placed(cdims, tmpl, poses) ==
     LET st == Stamps(tmpl, poses)
         Last(x) == CHOOSE i \in DOMAIN poses : x \in st[i] /\ \A j \in DOMAIN poses : j > i => x \notin st[j]
@@ -104,6 +111,7 @@ Init == /\ d = 0
         /\ out = <<>>
         /\ \/ kind = "rotate" /\ inp \in RotCases
            \/ kind = "place"  /\ inp \in PlaceCases
+           \/ kind = "placelist" /\ inp \in PlaceListCases
            \/ kind = "window" /\ inp \in WindowCases
            \/ kind = "sym"    /\ inp \in SymCases
 
@@ -115,6 +123,10 @@ Place == /\ kind = "place" /\ d = 0
          /\ out' = [placed |-> Placed(inp.cdims, inp.tmpl, inp.poses), shifted |-> Shifted(inp.tmpl, inp.poses)]
          /\ d' = 1 /\ UNCHANGED <<kind, inp>>
 
+PlaceList == /\ kind = "placelist" /\ d = 0
+             /\ out' = [placed |-> PlacedFrom(inp.cdims, inp.poses, StampsL(inp.tmpls, inp.poses))]
+             /\ d' = 1 /\ UNCHANGED <<kind, inp>>
+
 Window == /\ kind = "window" /\ d = 0
           /\ out' = [axes |-> [ax \in 1..3 |-> AxisMap(inp.vdims, inp.centre, inp.shape, ax)]]
           /\ d' = 1 /\ UNCHANGED <<kind, inp>>
@@ -123,7 +135,7 @@ Symmetrize == /\ kind = "sym" /\ d = 0
               /\ out' = [pairs |-> SymPairs(inp.dims, inp.n)]
               /\ d' = 1 /\ UNCHANGED <<kind, inp>>
 
-Next == Rotate \/ Place \/ Window \/ Symmetrize
+Next == Rotate \/ Place \/ PlaceList \/ Window \/ Symmetrize
 
 Spec == Init /\ [][Next]_vars
 
@@ -139,6 +151,8 @@ TypeOK == /\ d \in {0, 1}
                                \* the template support and all its rotated images stay clear of the template faces
                                /\ \A j \in DOMAIN inp.tmpl.cells : \A i \in 1..3 :
                                       inp.tmpl.cells[j].o[i] >= 2 - inp.tmpl.S \div 2 /\ inp.tmpl.cells[j].o[i] <= inp.tmpl.S \div 2 - 2
+          /\ kind = "placelist" => /\ Len(inp.tmpls) = Len(inp.poses)
+                                   /\ \A i \in DOMAIN inp.poses : inp.poses[i].R \in All /\ inp.tmpls[i].S % 2 = 0
           /\ kind = "window" => \A i \in 1..3 : inp.shape[i] % 2 = 0 /\ inp.shape[i] > 0
           /\ kind = "sym" => inp.n \in {2, 4}
 
@@ -173,6 +187,23 @@ C14_PlaceStamps ==
                      /\ touched = { x \in UNION { st[i] : i \in DOMAIN inp.poses } : InBox(x, inp.cdims) }
                      \* below-threshold template voxels never stamp
                      /\ \A i \in DOMAIN inp.poses : Cardinality(st[i]) = Cardinality(HiOffsets(inp.tmpl))
+
+\* a list of templates: every pose stamps ITS OWN template (also when several poses share one orientation), and placing
+\* the same template for every pose is the single-template placement
+C14_PlaceListStamps ==
+    Done("placelist") => LET st == StampsL(inp.tmpls, inp.poses)
+                             touched == { p[1] : p \in out.placed }
+                         IN
+                         /\ Len(inp.tmpls) = Len(inp.poses)
+                         /\ touched = { x \in UNION { st[i] : i \in DOMAIN inp.poses } : InBox(x, inp.cdims) }
+                         /\ Cardinality(touched) = Cardinality(out.placed)
+                         /\ \A p \in out.placed : LET cov == { i \in DOMAIN inp.poses : p[1] \in st[i] } IN
+                                /\ \E i \in cov : p[2] = inp.poses[i].colour
+                                /\ Cardinality(cov) = 1 => p[2] = inp.poses[CHOOSE i \in cov : TRUE].colour
+                         /\ \A i \in DOMAIN inp.poses : st[i] = { Add([a \in 1..3 |-> inp.poses[i].pos[a] - 1], Apply(inp.poses[i].R, o))
+                                                                : o \in HiOffsets(inp.tmpls[i]) }
+                         /\ (\A i \in DOMAIN inp.tmpls : inp.tmpls[i] = inp.tmpls[1]) =>
+                                out.placed = Placed(inp.cdims, inp.tmpls[1], inp.poses)
 
 \* the per-axis form agrees with the cell-wise meaning; the in-volume part is the intersection of the two boxes
 C14_WindowExact ==
@@ -218,6 +249,7 @@ PosesJ(ps) == [i \in DOMAIN ps |-> [pos |-> ps[i].pos, r |-> Code(ps[i].R), colo
 
 PJ == CASE kind = "rotate" -> [dims |-> inp.dims, r |-> Code(inp.R)]
         [] kind = "place"  -> [cdims |-> inp.cdims, tmpl |-> inp.tmpl, poses |-> PosesJ(inp.poses)]
+        [] kind = "placelist" -> [cdims |-> inp.cdims, tmpls |-> inp.tmpls, poses |-> PosesJ(inp.poses)]
         [] kind = "window" -> inp
         [] kind = "sym"    -> inp
 
